@@ -28,7 +28,7 @@ def tasks(tier):
     for n in gl:
         ts.append(Task('verifHarness_C02_G', [n], UF))
     for v in (1, 2):
-        for n in sorted(set(rl) | {5, 6, 9, 15, 19}):
+        for n in sorted(set(rl) | {1, 5, 6, 9, 15, 19}):
             for cut in (0, 6, 11):
                 ts.append(Task('verifHarness_C02_R', [v, n, cut], UF))
     for n in (0, 1, 5, 9):
